@@ -426,8 +426,11 @@ impl<'m> MapSession<'m> {
                     }
                     other
                 });
-                let eq = *map == other;
-                out.insert("ok".into(), json!(eq as u8));
+                // every equality facade must give the same answer: map == map (both ways), HashMapRef == HashMap,
+                // HashMap == HashMapRef, HashMapRef == HashMapRef; a disagreement is reported as 2
+                let rs = [*map == other, other == *map, map.pin() == other, *map == other.pin(), other.pin() == *map, map.pin() == other.pin()];
+                let eq = if rs.iter().all(|x| *x == rs[0]) { rs[0] as u8 } else { 2 };
+                out.insert("ok".into(), json!(eq));
             }
             "debug" => {
                 let s = match (&self.g, wg.as_ref()) {
@@ -675,7 +678,9 @@ impl<'m> SetSession<'m> {
             }
             "eq_other" => {
                 let o = other_set(&op.keys);
-                out.insert("ok".into(), json!((*set == o) as u8));
+                let rs = [*set == o, o == *set, set.pin() == o, *set == o.pin(), o.pin() == *set, set.pin() == o.pin()];
+                let eq = if rs.iter().all(|x| *x == rs[0]) { rs[0] as u8 } else { 2 };
+                out.insert("ok".into(), json!(eq));
             }
             "debug" => {
                 let s = match (&self.g, wg.as_ref()) {
